@@ -615,15 +615,18 @@ def arange(*args, dtype=None):
     if not _b.all(isinstance(v, (_b.int, _np.integer, SInt)) for v in (start, stop, step)):
         raise ModelGap("arange with non-integer arguments")
     if isinstance(step, SInt):
-        if not (step > 0):
-            raise ModelGap("arange with non-positive symbolic step")
-    elif step <= 0:
-        raise ModelGap("arange with non-positive step")
+        up = _b.bool(step > 0)
+        if not up and _b.bool(step == 0):
+            raise ZeroDivisionError("arange step must not be zero")
+    else:
+        if step == 0:
+            raise ZeroDivisionError("arange step must not be zero")
+        up = step > 0
     out = []
     n = 0
     while True:
         v = start + n * step
-        if not (v < stop):
+        if not ((v < stop) if up else (v > stop)):
             break
         out.append(v)
         n += 1
